@@ -8,6 +8,14 @@ TV:      random reflect-built types (nesting <= 5, up to 140 fields, tag options
          omitempty / string / names needing escapes, time values, raw values, untyped values, map
          keys of several kinds) x 10 symmetric option sets.  Number exactness (full 64-bit
          integers, identical float bits) is part of the Go-side equality fact and of C10's check.
+MC:      spec/Arshal.tla is the documented type-directed mapping between Go values and JSON
+         (Marshal, Unmarshal with merge semantics, omit options, string option, name matching).
+         MC_Arshal enumerates every value of every type of a bounded universe x 6 option sets and
+         proves on the model: Unmarshal accepts Marshal(v), marshaling the decoded value gives the
+         same JSON value, the decoded value equals v up to nil/empty (RoundTrip); the compact
+         rendering reads back through the byte automaton (ParseRender).
+Replay:  every (type, value, options) with the exact bytes the model predicts, on Marshal by
+         pointer and by value (types and values built with reflect).
 """
 
 
@@ -20,5 +28,12 @@ def run(ctx):
         "Go equality of the decoded value with the original (nil/empty identified, floats by bits, times by Equal) is computed by the harness and required TRUE by the spec when meaningful (no omit options, no untyped or raw members)",
         "values without a JSON representation under the option set (e.g. time.Duration without a format) are skipped",
     ]
+    # the type-directed model: exact Marshal output for every value of a bounded universe,
+    # round trip proved on the model by TLC
+    import arshalfam as af
+    D = 1 if ctx.quick else 2
+    types = af.within(af.HAND + af.random_types(ctx.seed, 150 if ctx.quick else 1500), D, 400 if ctx.quick else 3000, 10 ** 9)
+    m = af.run_model(ctx, "marshal", types, {"m"}, "C04", D=D)
+    ctx.assumptions.append("Arshal model: bool, string, float64 (<= 15 significant digits), integers of 8..64 bits, slices, arrays, maps keyed by strings or integers, pointers, any, structs with omitzero/omitempty/string/case options; 6 marshal option sets")
     ctx.cov["distinct_nontrivial"] = n
     ctx.cov["rule"] = "random (type, value, option set) triples regenerated from logged seeds"
